@@ -18,7 +18,10 @@ VERS = ['3.8', '3.12', '3.6']
 DIRS = ['c1', 'c2']
 CONTENTS = ['x = 1\n', 'y = 2\n', 'def f():\n    return 1\n', 'x = (\n', '', 'class A:\n  pass\n', 'x = 1\ny = 2\n',
             'def f():\n    return 2\n', 'import os\nprint(os)\n', 'async def f(): await x\n', 'x = 1 \n', 'print "x"\n',
-            'if x:\n    y\nelse:\n    z\n', '# coding: utf-8\nü = 1\n']
+            'if x:\n    y\nelse:\n    z\n', '# coding: utf-8\nü = 1\n',
+            # trees that differ between the three grammar versions
+            'x = (y := 1)\n', 'def f(a, /): pass\n', 'with (a as b, c as d): pass\n', 'type X = int\n', 'f"{"a"}"\n',
+            'def g[T](x: T) -> T: return x\n']
 MODES = ['cache', 'cache', 'cache+diff', 'none', 'diff']
 
 _F = st.sampled_from([0, 0, 0, 1, 2])
